@@ -6,6 +6,7 @@ package ordabs
 
 import (
 	"fmt"
+	"strings"
 	"go/ast"
 	"go/constant"
 	"go/token"
@@ -104,6 +105,11 @@ type Unsupported struct {
 }
 
 func (u *Unsupported) Error() string { return "unsupported construct: " + u.What }
+
+// DivByZero is returned when interpreted code divides by zero (a run-time panic in Go).
+type DivByZero struct{ Pos token.Pos }
+
+func (d *DivByZero) Error() string { return "integer division by zero (the real code would panic)" }
 
 func unsup(pos token.Pos, format string, a ...any) error {
 	return &Unsupported{Pos: pos, What: fmt.Sprintf(format, a...)}
@@ -826,6 +832,10 @@ func (f *frame) assign(s *ast.AssignStmt) error {
 			op = token.SUB
 		case token.MUL_ASSIGN:
 			op = token.MUL
+		case token.QUO_ASSIGN:
+			op = token.QUO
+		case token.REM_ASSIGN:
+			op = token.REM
 		default:
 			return unsup(s.Pos(), "op-assign %v", s.Tok)
 		}
@@ -1280,9 +1290,45 @@ func (f *frame) exprMulti(e ast.Expr) ([]Value, error) {
 		sl, ok1 := xv.(*Slice)
 		idx, ok2 := iv.(int64)
 		if !ok1 || !ok2 || sl == nil || idx < 0 || int(idx) >= len(*sl.Elems) {
-			return nil, unsup(e.Pos(), "index expression")
+			return nil, unsup(e.Pos(), "index %v out of range or not a slice (the real code would panic)", iv)
 		}
 		return []Value{(*sl.Elems)[idx]}, nil
+	case *ast.SliceExpr:
+		xv, err := f.expr(e.X)
+		if err != nil {
+			return nil, err
+		}
+		sl, ok := xv.(*Slice)
+		if !ok || e.Slice3 {
+			return nil, unsup(e.Pos(), "slice expression on %T", xv)
+		}
+		n := 0
+		if sl != nil {
+			n = len(*sl.Elems)
+		}
+		lo, hi := 0, n
+		if e.Low != nil {
+			v, err := f.expr(e.Low)
+			if err != nil {
+				return nil, err
+			}
+			lo = int(v.(int64))
+		}
+		if e.High != nil {
+			v, err := f.expr(e.High)
+			if err != nil {
+				return nil, err
+			}
+			hi = int(v.(int64))
+		}
+		if lo < 0 || hi > n || lo > hi {
+			return nil, unsup(e.Pos(), "slice bounds out of range [%d:%d] with length %d (the real code would panic)", lo, hi, n)
+		}
+		var part []Value
+		if sl != nil {
+			part = (*sl.Elems)[lo:hi]
+		}
+		return []Value{&Slice{Elems: &part}}, nil
 	case *ast.CallExpr:
 		return f.call(e)
 	case *ast.TypeAssertExpr:
@@ -1354,6 +1400,21 @@ func binop(pos token.Pos, op token.Token, l, r Value) (Value, error) {
 		return a - b, nil
 	case token.MUL:
 		return a * b, nil
+	case token.QUO, token.REM:
+		if b == 0 {
+			return nil, &DivByZero{Pos: pos}
+		}
+		if b == -1 {
+			// Go: x / -1 == -x (wraps at MinInt64), x % -1 == 0; the host would trap on MinInt64 / -1
+			if op == token.QUO {
+				return -a, nil
+			}
+			return int64(0), nil
+		}
+		if op == token.QUO {
+			return a / b, nil
+		}
+		return a % b, nil
 	}
 	return nil, unsup(pos, "operator %v", op)
 }
@@ -1452,11 +1513,50 @@ func (f *frame) call(e *ast.CallExpr) ([]Value, error) {
 			}
 			return nil, unsup(e.Pos(), "len of %T", v)
 		case "make":
-			switch f.info.TypeOf(e.Args[0]).Underlying().(type) {
+			switch mt := f.info.TypeOf(e.Args[0]).Underlying().(type) {
 			case *types.Map:
 				return []Value{NewMap()}, nil
+			case *types.Slice:
+				n := int64(0)
+				if len(e.Args) > 1 {
+					v, err := f.expr(e.Args[1])
+					if err != nil {
+						return nil, err
+					}
+					n, _ = v.(int64)
+				}
+				if n < 0 || n > 1000 {
+					return nil, unsup(e.Pos(), "make([]T, %d): negative or huge length (the real code would panic or exhaust memory)", n)
+				}
+				elems := make([]Value, n)
+				for i := range elems {
+					z, err := zeroOf(mt.Elem())
+					if err != nil {
+						return nil, unsup(e.Pos(), "make: element zero value")
+					}
+					elems[i] = z
+				}
+				return []Value{&Slice{Elems: &elems}}, nil
 			}
-			return nil, unsup(e.Pos(), "make of non-map")
+			return nil, unsup(e.Pos(), "make of %v", f.info.TypeOf(e.Args[0]))
+		case "max", "min":
+			if err := evalArgs(); err != nil {
+				return nil, err
+			}
+			best, ok := args[0].(int64)
+			if !ok {
+				return nil, unsup(e.Pos(), "%s of non-integers", b.Name())
+			}
+			for _, a := range args[1:] {
+				x, ok := a.(int64)
+				if !ok {
+					return nil, unsup(e.Pos(), "%s of non-integers", b.Name())
+				}
+				if (b.Name() == "max" && x > best) || (b.Name() == "min" && x < best) {
+					best = x
+				}
+			}
+			return []Value{best}, nil
 		case "delete":
 			if err := evalArgs(); err != nil {
 				return nil, err
@@ -1531,6 +1631,25 @@ func (f *frame) call(e *ast.CallExpr) ([]Value, error) {
 	}
 	if st, ok := f.in.Stubs[name]; ok {
 		return st(f.in, recv, args)
+	}
+	if fnObj != nil {
+		if sig := fnObj.Type().(*types.Signature); sig.Recv() != nil {
+			if _, isIface := sig.Recv().Type().Underlying().(*types.Interface); isIface {
+				// interface method: dispatch on the dynamic type tag of the receiver
+				if r, ok := recv.(*Rec); ok && r != nil && r.T != "" {
+					if i := strings.LastIndex(r.T, "."); i > 0 {
+						dyn := r.T[:i] + "." + r.T[i+1:] + "." + fnObj.Name()
+						if st, ok := f.in.Stubs[dyn]; ok {
+							return st(f.in, recv, args)
+						}
+						if target := f.in.Prog.Func(r.T[:i], r.T[i+1:]+"."+fnObj.Name()); target != nil {
+							return f.in.Call(target, recv, args)
+						}
+					}
+				}
+				return nil, unsup(e.Pos(), "interface method %s on %T without a known dynamic type", name, recv)
+			}
+		}
 	}
 	// closures held in variables resolve to *types.Var, handled above (callee==nil);
 	// here: a function or method declared in the repository.
